@@ -739,8 +739,8 @@ pub fn arb_cv(depth: u32, kw: bool) -> BoxedStrategy<CV> {
         any::<bool>().prop_map(CV::Bool),
         arb_path(kw).prop_map(CV::Path),
         arb_lit().prop_map(CV::Str),
-        prop_oneof![any::<i64>(), -10i64..1000, Just(i64::MAX), Just(i64::MIN + 1)].prop_map(CV::Int),
-        prop_oneof![-70000i64..70000, (i64::MIN + 1)..=i64::MAX].prop_map(CV::HexInt),
+        prop_oneof![any::<i64>(), -10i64..1000, Just(i64::MAX), Just(i64::MIN + 1), Just(i64::MIN)].prop_map(CV::Int),
+        prop_oneof![8 => -70000i64..70000, 8 => any::<i64>(), 1 => Just(i64::MIN), 1 => Just(i64::MAX)].prop_map(CV::HexInt),
         prop_oneof![
             Just("1.5".to_string()),
             Just("-0.25".to_string()),
